@@ -14,12 +14,36 @@ pub fn exec(op: &str, args: &[&str], out: &mut Out) -> Option<()> {
             let de_b = <&Pointer>::deserialize(BorrowedStrDeserializer::<Error>::new(&s));
             let de_o = PointerBuf::deserialize(StringDeserializer::<Error>::new(s.clone()));
             let de_v = serde_json::from_value::<PointerBuf>(serde_json::Value::String(s.clone()));
+            // deserializers that hand the text over as bytes / as a transient &str / as a char sequence
+            use serde::de::value::{BorrowedBytesDeserializer, BytesDeserializer, StrDeserializer, CowStrDeserializer};
+            let others: Vec<(&str, Result<PointerBuf, Error>)> = vec![
+                ("BytesDeserializer", PointerBuf::deserialize(BytesDeserializer::<Error>::new(s.as_bytes()))),
+                ("BorrowedBytesDeserializer", PointerBuf::deserialize(BorrowedBytesDeserializer::<Error>::new(s.as_bytes()))),
+                ("StrDeserializer", PointerBuf::deserialize(StrDeserializer::<Error>::new(&s))),
+                ("CowStrDeserializer(owned)", PointerBuf::deserialize(CowStrDeserializer::<Error>::new(std::borrow::Cow::Owned(s.clone())))),
+                ("BorrowedStrDeserializer->PointerBuf", PointerBuf::deserialize(BorrowedStrDeserializer::<Error>::new(&s))),
+            ];
+            let de_bb = <&Pointer>::deserialize(BorrowedBytesDeserializer::<Error>::new(s.as_bytes()));
             if !valid {
-                out.check(de_b.is_err() && de_o.is_err() && de_v.is_err(), "C18,C02,C01", || {
-                    format!("deserialising the invalid text {s:?} did not fail (borrowed: {}, owned: {}, from_value: {})", de_b.is_ok(), de_o.is_ok(), de_v.is_ok())
+                let mut accepted: Vec<&str> = others.iter().filter(|(_, r)| r.is_ok()).map(|(n, _)| *n).collect();
+                if de_b.is_ok() { accepted.push("&Pointer/BorrowedStr"); }
+                if de_o.is_ok() { accepted.push("PointerBuf/String"); }
+                if de_v.is_ok() { accepted.push("from_value"); }
+                if de_bb.is_ok() { accepted.push("&Pointer/BorrowedBytes"); }
+                out.check(accepted.is_empty(), "C18,C02,C01", || {
+                    format!("deserialising the invalid text {s:?} did not fail through: {}", accepted.join(", "))
                 });
-                out.observed = if de_b.is_err() && de_o.is_err() && de_v.is_err() { "rej".into() } else { "ACCEPTED-INVALID".into() };
+                out.observed = if accepted.is_empty() { "rej".into() } else { format!("ACCEPTED-INVALID:{}", accepted.join(",")) };
                 return Some(());
+            }
+            for (name, r) in &others {
+                // a deserializer may legitimately not support strings-as-bytes; if it yields a pointer it must be the text
+                if let Ok(q) = r {
+                    out.check(q.as_str() == s, "C18", || format!("Deserialize for PointerBuf through {name} changed {s:?} to {:?}", q.as_str()));
+                }
+            }
+            if let Ok(q) = de_bb {
+                out.check(q.as_str() == s, "C18", || format!("Deserialize for &Pointer through borrowed bytes changed {s:?}"));
             }
             let p = Pointer::parse(&s).ok()?;
             let mut bad: Vec<&str> = vec![];
